@@ -299,12 +299,13 @@ func run(c *runner.Ctx) {
 		{"2 transactions", 2, b3 + 1},
 		{"first 2 transactions of a freshly built WAF", 22, b3},
 		{"transaction + WAF build/close", 12, b3},
-		{"2 transactions + WAF build/close", 3, b3},
 		{"2 threads x 2 transactions, pooled objects recycled across threads", 24, b3 - 1},
 		{"2 threads each building and closing a WAF with shared patterns", 33, b3},
 		{"2 threads building WAFs that introduce new transformation chains, then one WAF using both chains", 44, b3},
 		{"2 complete exchanges (5 phases, both body processors, 30 operator / transformation families) on one shared WAF", 55, b3 + 1},
 		{"2 threads building WAFs whose long phrase lists differ only at the end, then each WAF probed with both distinguishing words", 66, b3},
+		// the largest space (3 threads) comes last: a deadline cuts this one, not the others
+		{"2 transactions + WAF build/close", 3, b3},
 	}
 	wide, err := scen.Build(wideConf)
 	if err != nil {
